@@ -6,7 +6,8 @@ import sys
 
 from detectors_scenes import *  # noqa
 from fdtdx.fdtd.update import update_detector_states
-from fdtdx.objects.detectors.poynting_flux import (ClosedSurfacePoyntingFluxDetector, PhasorPoyntingFluxDetector)
+from fdtdx.objects.detectors.poynting_flux import (ClosedSurfacePoyntingFluxDetector, PhasorPoyntingFluxDetector,
+                                                   ClosedSurfacePhasorPoyntingFluxDetector)
 
 
 def make_det(d):
@@ -32,6 +33,9 @@ def make_det(d):
     if k == "phasor_poynting":
         return PhasorPoyntingFluxDetector(direction=o.get("direction", "+"), keep_all_components=bool(o.get("keep_all")),
                                           fixed_propagation_axis=o.get("fixed_axis"), **pk)
+    if k == "closed_phasor":
+        return ClosedSurfacePhasorPoyntingFluxDetector(orientation=o.get("orientation", "outward"),
+                                                       axes=None if o.get("axes") is None else tuple(o["axes"]), **pk)
     raise ValueError(k)
 
 
@@ -84,7 +88,13 @@ def run_case(c):
         det, st = res[n]
         on = np.asarray(det._is_on_at_time_step_arr)
         o = {"n_on": int(on.sum()), "on_now": bool(on[int(c["t"])]), "shape": list(det.grid_shape)}
-        if d["kind"] in ("phasor", "phasor_poynting"):
+        if d["kind"] == "closed_phasor":
+            o["faces"] = {}
+            for key, v in st.items():
+                v = np.asarray(v)
+                o["faces"][key] = {"re": fl(v.real), "im": fl(v.imag), "shape": list(v.shape)}
+            o["net"] = fl(np.asarray(det.compute_net_flux(st)))
+        elif d["kind"] in ("phasor", "phasor_poynting"):
             ph = np.asarray(st["phasor"])
             o["re"], o["im"], o["oshape"] = fl(ph.real), fl(ph.imag), list(ph.shape)
             o["omega"] = [float(v) for v in np.asarray(det._angular_frequencies)]
